@@ -20,7 +20,7 @@ from mc.codec import show
 PROPERTY = 'C02'
 ASSUMPTIONS = [
     'key equality as the statement defines it: None==None, NaN==NaN whatever the identity, an int equals the same-valued float, otherwise same type and ==',
-    'bool, date-vs-datetime and +-inf keys are outside the key domain; output row order and which of two equal representatives (1 vs 1.0) is shown are not checked',
+    'bool and date-vs-datetime keys are outside the key domain (+-inf keys: suite `infs`); output row order and which of two equal representatives (1 vs 1.0) is shown are not checked',
     'columns of an EMPTY join result are not checked (statement silent)',
     'termination: lasso on the merge cursors at while-headers, or more than FUEL line events inside join/xor/_listby (a correct merge of <=4x4 rows needs < 1500)',
 ]
@@ -96,7 +96,8 @@ class Monitor:
 
 # ------------------------------------------------------------------------------------------------ values
 
-K8 = ['None', '1', '1.0', '2', 'nan#1', 'nan#2', "'a'", 'dt', "'aa'", "'b'"]      # the last two only in the `strings` suite
+K8 = ['None', '1', '1.0', '2', 'nan#1', 'nan#2', "'a'", 'dt', "'aa'", "'b'", '+inf', '-inf']      # the last four only in the `strings` / `infs` suites
+KINF = [10, 11, 4, 5, 1]              # +inf, -inf, nan#1, nan#2, 1: infinities are ordinary float keys, equal only to themselves
 KSTR = [6, 8, 9, 1]                   # 'a', 'aa', 'b', 1: strings of different lengths ('aa' < 'b' alphabetically, but longer)
 K6 = [0, 1, 2, 4, 5, 6]
 K4 = [1, 4, 5, 6]        # 1, nan#1, nan#2, 'a'
@@ -121,6 +122,10 @@ def mk(i, nans):
         return 'aa'
     if n == "'b'":
         return 'b'
+    if n == '+inf':
+        return float('inf')
+    if n == '-inf':
+        return float('-inf')
     return nans[n]
 
 
@@ -498,6 +503,8 @@ def suites(tier, seed):
                        bounds=dict(left_rows=2, right_rows=1)))
         S.append(Suite('strings', lambda: gen_basic(KSTR, 3, 2), check_basic,
                        rule="one key column over {'a','aa','b',1}: strings of different lengths, the longer one alphabetically smaller; all pairs 0..3 x 0..2 rows", bounds=dict(key_values=4)))
+        S.append(Suite('infs', lambda: gen_basic(KINF, 2, 2), check_basic,
+                       rule='one key column over {+inf, -inf, nan#1, nan#2, 1}: all pairs 0..2 x 0..2 rows', bounds=dict(key_values=5)))
         S.append(Suite('keys2', lambda: gen_basic(K4, 2, 1, ncol=2), check_basic,
                        rule='two key columns over the 4-value sub-domain {1,nan#1,nan#2,a} (two NaN identities): all pairs 0..2 x 0..1 rows', bounds=dict(ncol=2)))
         S.append(Suite('keys3', lambda: gen_basic(K3, 1, 1, ncol=3), check_basic,
@@ -513,6 +520,8 @@ def suites(tier, seed):
                        rule='all pairs 0..2 x 0..2 rows over the 8-value domain x every key spelling x every mode', bounds=dict(left_rows=2, right_rows=2)))
         S.append(Suite('strings', lambda: gen_basic(KSTR, 3, 3), check_basic,
                        rule="one key column over {'a','aa','b',1}: strings of different lengths; all pairs 0..3 x 0..3 rows", bounds=dict(key_values=4)))
+        S.append(Suite('infs', lambda: gen_basic(KINF, 3, 3), check_basic,
+                       rule='one key column over {+inf, -inf, nan#1, nan#2, 1}: all pairs 0..3 x 0..3 rows', bounds=dict(key_values=5)))
         S.append(Suite('keys2', lambda: gen_basic(K4, 2, 2, ncol=2), check_basic,
                        rule='two key columns over {1,nan#1,nan#2,a}: all pairs 0..2 x 0..2 rows', bounds=dict(ncol=2)))
         S.append(Suite('keys3', lambda: gen_basic(K3, 2, 1, ncol=3), check_basic,
